@@ -1134,6 +1134,61 @@ def tv_batch(case):
     reset_table()
     return {"violation": False, "results": r, "detail": ""}
 
+
+
+def lemma_derive_step(case):
+    """replay of a step-lemma model: the real function with the real recursion, from the concrete loop-head state,
+    first on exactly one iteration, then on a few adversarial continuations that try to spend everything the
+    state still promises (the lemma's stub allows any behaviour within the contract; a real continuation has to be found)"""
+    import sys
+    from selfies import mol_graph as mg
+    dec = sys.modules["selfies.decoder"]
+    pid = case.get("prop", "C01")
+    if not set_table(case["table"]):
+        return ok("table rejected")
+    syms = list(case["symbols"])
+    first = syms[0]
+    m = re.match(r"^\[.*?(?:Branch|Ring)([123])\]$", first)
+    nidx = int(m.group(1)) if m else 0
+    B = ["[#Branch1]", "[C]", "[#C]"]
+    inner = ["[#Branch1]", "[C]", "[#C]", "[C]"]          # spends up to 4 on the branch root (nested branch at branch start)
+    U = ["[#Branch1]", "[Branch1]"] + inner                # a branch of exactly those 4 symbols
+    conts = [(syms, 1)]
+    if nidx and "Branch" in first:
+        idx4 = ["[C]"] * (nidx - 1) + ["[Branch1]"]
+        conts.append(([first] + idx4 + inner + U * 3 + ["[#C]", "[C]"], None))
+        conts.append(([first] + idx4 + inner + B * 3 + ["[#C]", "[C]"], None))
+    for tail in (U * 3 + ["[#C]"], B * 3 + ["[#C]"], ["[#C]", "[C]"] + U * 2 + ["[#C]"], ["[#N]"] + B + ["[#N]"], ["[=C]"] * 4):
+        conts.append(([first] + syms[1:1 + nidx] + tail, None))
+    try:
+        for symbols, budget in conts:
+            mol = mg.MolecularGraph()
+            rings = []
+            if case["has_root"]:
+                mol.add_atom(mg.Atom("N", False), True)
+                root = mol.add_atom(mg.Atom("C", False))
+                mol._bond_counts[0] = case["cnt_other"]
+                mol._bond_counts[1] = case["cnt_root"]
+                st = case["state"]
+            else:
+                root, st = None, 0
+            try:
+                dec._derive_mol_from_symbols(enumerate(iter(symbols)), mol, "x", budget if budget else float("inf"), st, root, rings, None, 0)
+                dec._form_rings_bilocally(mol, rings)
+            except sf.DecoderError:
+                continue
+            except Exception as ex:  # noqa
+                return bad("%s:derive-step:%s" % (pid, type(ex).__name__), "derivation from loop-head state %r (root count %r, table %s) on %r raised %r"
+                           % (st, case.get("cnt_root"), _short(case["table"]), symbols, ex))
+            for a in mol.get_atoms():
+                if mol.get_bond_count(a.index) > a.bonding_capacity:
+                    return bad("%s:derive-step" % pid, "derivation from loop-head state %r (root count %r of capacity %r, table %s) on symbols %r leaves atom %d with %r bonds > capacity %r"
+                               % (st, case.get("cnt_root"), case["table"].get("C"), _short(case["table"]), symbols, a.index, mol.get_bond_count(a.index), a.bonding_capacity))
+        return ok()
+    finally:
+        reset_table()
+
+
 # ---------------------------------------------------------------------------
 
 KINDS = {
@@ -1166,6 +1221,7 @@ KINDS = {
     "writer_graph": c01_writer_graph,
     "strict_history": c06_history,
     "tv_batch": tv_batch,
+    "derive_step": lemma_derive_step,
     "state_fn": lemma_state_fn,
     "ring_step": lemma_ring_step,
 }
